@@ -47,6 +47,13 @@ Theorem C26_connection_tokens_partial : forall i,
 Proof. exact prop_C26_of_model. Qed.
 Print Assumptions C26_connection_tokens_partial.
 
+(* The guard is exact: every well-formed input of finding class 1 (kf_C26 i = 1) does violate the property on the
+   model - class 1 contains no input on which the code behaves correctly. *)
+Theorem C26_finding_class_exact : forall i,
+  wf_C26 i = true -> kf_C26 i = 1 -> prop_C26 i (run_C26 i) = false.
+Proof. exact kf_C26_exact. Qed.
+Print Assumptions C26_finding_class_exact.
+
 (* Non-vacuity of the guarded statement: "Connection: close", "te: trailers", "Transfer-Encoding: chunked", "X-Foo: 1"
    with a chunked body; the backend gets Host, Transfer-Encoding: chunked (own framing), Te: trailers, X-Foo: 1. *)
 Example C26_partial_nonvacuous :
